@@ -193,6 +193,24 @@ def fold(node, env=None):
                 return a**b
         except Exception as e:  # noqa
             raise NoFold(str(e))
+    if isinstance(node, ast.Compare):
+        import operator as _op
+
+        ops = {ast.Lt: _op.lt, ast.LtE: _op.le, ast.Gt: _op.gt, ast.GtE: _op.ge, ast.Eq: _op.eq, ast.NotEq: _op.ne}
+        left = fold(node.left, env)
+        for o, r in zip(node.ops, node.comparators):
+            if type(o) not in ops:
+                raise NoFold(norm(node))
+            right = fold(r, env)
+            if not ops[type(o)](left, right):
+                return False
+            left = right
+        return True
+    if isinstance(node, ast.BoolOp):
+        vals = [fold(v, env) for v in node.values]
+        return all(vals) if isinstance(node.op, ast.And) else any(vals)
+    if isinstance(node, ast.IfExp):
+        return fold(node.body, env) if fold(node.test, env) else fold(node.orelse, env)
     if isinstance(node, ast.Call):
         cn = call_name(node)
         if cn in ("set", "frozenset", "tuple", "list") and len(node.args) <= 1 and not node.keywords:
